@@ -176,10 +176,11 @@ impl Conc {
         format!("mixed:{name}/{id}")
     }
     pub fn props_label(&self, p: &[ProfileProperty]) -> String {
-        if p.is_empty() {
-            "none".into()
-        } else if p == self.vouched_props.as_slice() {
+        if p == self.vouched_props.as_slice() {
+            // (also when the service vouched for a profile WITHOUT properties: the empty list is then what has to be kept)
             "vouched".into()
+        } else if p.is_empty() {
+            "none".into()
         } else if p == self.cookie_props.as_slice() {
             "cookie".into()
         } else {
@@ -1533,6 +1534,10 @@ pub fn run_behaviour(idx: usize, b: &Value, seed: u64, var: u64) -> Value {
         3 => conc.other.id = Uuid::nil(),
         4 => conc.other.name = String::new(),
         _ => {}
+    }
+    // the authenticated profile may carry no properties at all (an account without a skin)
+    if (var / 5) % 4 == 3 {
+        conc.vouched_props.clear();
     }
     let conc = Arc::new(conc);
     let mut jar = Jar { auth: None, sess: None };
